@@ -447,6 +447,13 @@ def check_scaling(shape: str, path: str, fname: str) -> tuple[list, dict]:
                 return [], info
     except ALLOWED as e:
         return [(f"scaling:valid-input-rejected:{K.exc_signature(e)}", f"{path}: a valid {shape} message was rejected: {e!r:.200}")], info
+    except AssertionError:
+        raise
+    except Exception as e:  # noqa: BLE001 - anything else raised from inside kio is an internal error on valid input
+        sig = K.exc_signature(e)
+        if sig.endswith("@?"):
+            raise
+        return [(f"internal-error:{sig}", f"{path}: decoding a valid {shape} message raised {e!r:.200}")], info
     return [(f"scaling:superlinear:{shape.split(':')[0]}",
              f"{path} ({shape}): decoding {len(big)} valid bytes took {t_big:.2f} CPU-s, {len(small)} bytes {t_small:.4f} CPU-s - "
              f"{t_big / t_small:.0f} times the cost for {len(big) / len(small):.1f} times the input (minimum of 3 runs, measured twice)")], info
